@@ -229,7 +229,7 @@ pub fn case_strategy(max_calls: usize) -> impl Strategy<Value = Case> {
 
 pub fn run(ctx: &mut Ctx) {
     ctx.stage("random");
-    let cases = ctx.pick(12_000u32, 300_000u32) / ctx.nshards;
+    let cases = ctx.pick(100_000u32, 800_000u32) / ctx.nshards;
     let maxc = ctx.pick(60usize, 200usize);
     ctx.run_prop(case_strategy(maxc), cases, |ctx, c| oracle(ctx, c));
 }
